@@ -51,6 +51,12 @@ Section G.
   | vt_leaf a : valid_tree G (Node (T a) [])
   | vt_node A sons : In (A, map root sons) (g_prods G) -> Forall (valid_tree G) sons ->
                      valid_tree G (Node (V A) sons).
+
+  (* FOLLOW by its three textbook rules over true derivations; None is the end marker *)
+  Inductive Follows (G : cfg) : Vr -> option N -> Prop :=
+  | fo_start s : g_start G = Some s -> Follows G s None
+  | fo_first A pre B post a v : In (A, pre ++ V B :: post) (g_prods G) -> derives_list G post (a :: v) -> Follows G B (Some a)
+  | fo_nullable A pre B post l : In (A, pre ++ V B :: post) (g_prods G) -> derives_list G post [] -> Follows G A l -> Follows G B l.
 End G.
 Arguments symb : clear implicits.
 Arguments cfg : clear implicits.
